@@ -1086,5 +1086,4 @@ def _kf_collapse_groups(case, subcheck, detail):
     return False
 
 
-KNOWN = {'C18-weighted-median-even-count': _kf_weighted_median_even,
-         'C18-collapse-groups-not-merged': _kf_collapse_groups}
+KNOWN = {}      # the defects this check found were repaired in /repo (see known_findings.json); predicates kept for reference
